@@ -170,7 +170,7 @@ def judge(ctx, res, fam, logs, crashes, stats):
             elif sc["complete"] and (v is None or v[0] != "OK"):
                 rejected.append((sc, v))
     for sc, m, v in monfail[:3]:
-        res.violation("c19:hc:" + m.split(" ")[0] + ":" + fam, m,
+        res.violation("c19:hc:monitor:" + C.sha(m.rstrip("0123456789 "))[:8] + ":" + fam, m,
                       dict(kind="failing-history", part="hc", family=fam, seed=ctx["seed"], idx=sc["idx"], what=m,
                            model_verdict=(v[0] + " " + v[1]) if v else "none", log=sc["lines"],
                            replay_cmd="./check C19 --replay <this file>"), found_input=True)
